@@ -43,6 +43,9 @@ type heapLval struct {
 }
 
 func (l heapLval) get(st *State) Term {
+	if l.e.spec == 0 && l.e.readKeys != nil {
+		l.e.readKeys[l.key] = true
+	}
 	if pred := l.e.P.Memo[l.key]; pred != nil && l.e.spec == 0 && l.e.memoBusy == 0 {
 		// memo cell: its content is any value allowed by the memo predicate (sound over-approximation:
 		// every write is checked against the predicate, which speaks only about immutable data)
